@@ -1,26 +1,30 @@
 import Driver.RespCmds
 import Driver.StoreCmds
 import Driver.NetCmds
+import Driver.ConcCmds
 
 open Driver
 
-partial def loop (h : IO.FS.Stream) (out : IO.FS.Stream) (ss : SS) (ns : NS := {}) : IO Unit := do
+partial def loop (h : IO.FS.Stream) (out : IO.FS.Stream) (ss : SS) (ns : NS := {}) (cl : CL := {}) : IO Unit := do
   let line ← h.getLine
   if line.isEmpty then return ()
   let toks := (line.trimAscii.toString.splitOn " ").filter (· ≠ "")
   match toks with
-  | [] => out.putStrLn ""; loop h out ss ns
-  | "#" :: _ => out.putStrLn line.trimAscii.toString; loop h out ss ns
+  | [] => out.putStrLn ""; loop h out ss ns cl
+  | "#" :: _ => out.putStrLn line.trimAscii.toString; loop h out ss ns cl
   | _ =>
     match respStep toks with
-    | some a => out.putStrLn a; loop h out ss ns
+    | some a => out.putStrLn a; loop h out ss ns cl
     | none =>
       match netStep ns toks with
-      | some (ns', a) => out.putStrLn a; loop h out ss ns'
+      | some (ns', a) => out.putStrLn a; loop h out ss ns' cl
       | none =>
         match storeStep ss toks with
-        | some (ss', a) => out.putStrLn a; loop h out ss' ns
-        | none => out.putStrLn "bad-op"; loop h out ss ns
+        | some (ss', a) => out.putStrLn a; loop h out ss' ns cl
+        | none =>
+          match clStep cl toks with
+          | some (cl', a) => out.putStrLn a; loop h out ss ns cl'
+          | none => out.putStrLn "bad-op"; loop h out ss ns cl
 
 def main : IO Unit := do
   let stdin ← IO.getStdin
